@@ -871,13 +871,18 @@ def topological_sort(graph):
 
     """
 
-    def recurse(node, path):
+    def recurse(node, path, visiting):
+        if node in visiting:
+            raise Error(
+                "Recursive type '{}' is not supported.".format(
+                    '.'.join(node) if isinstance(node, tuple) else node))
+
         if node not in path:
             edges = graph[node]
 
             for edge in edges:
                 if edge not in path:
-                    path = recurse(edge, path)
+                    path = recurse(edge, path, visiting + [node])
 
             path = path + [node]
 
@@ -886,6 +891,6 @@ def topological_sort(graph):
     path = []
 
     for node in sorted(graph):
-        path = recurse(node, path)
+        path = recurse(node, path, [])
 
     return path
